@@ -176,6 +176,33 @@ def run(chk, facts_dir, tier):
         for (bi, t, k, f) in atomic_ops(prog, b, e2):
             if f == "state" and k in ATOMIC_WRITES:
                 chk.fail("R26.4", p, "state-writer", "the state is written outside the transition_to_* functions", b, t["line"])
+    # ---------------- R26.5 closing the circuit starts a fresh failure count
+    chk.rule("R26.5", "A CLOSED CIRCUIT STARTS FROM ZERO: every function that stores Closed into `state` also stores 0 into failure_count (before the state store); otherwise the count "
+                      "that opened the circuit survives the recovery and the first failure after closing re-opens it, far below failure_threshold consecutive failures")
+    n5 = 0
+    for p, b in sorted(prog.bodies.items()):
+        if not p.startswith(CB) or "closure" in p:
+            continue
+        ev = Ev(prog, b)
+        ops = atomic_ops(prog, b, ev)
+        closes = []
+        for (bi, t, k, f) in ops:
+            if f == "state" and k in ("store", "swap", "compare_exchange", "compare_exchange_weak"):
+                val = ev.operand(t["args"][-2] if k.startswith("compare_exchange") else t["args"][1], (bi, "T"))
+                if "Closed" in show(val):
+                    closes.append((bi, t))
+        if not closes:
+            continue
+        n5 += 1
+        zeroed = [(bi, t) for (bi, t, k, f) in ops if f == "failure_count" and k == "store" and strip(ev.operand(t["args"][1], (bi, "T")))[0] == "const"
+                  and strip(ev.operand(t["args"][1], (bi, "T")))[2] == 0]
+        for cbi, ct in closes:
+            if any(b.dominates(zb, cbi) for zb, _ in zeroed):
+                chk.ok("R26.5", "%s: failure_count := 0 before state := Closed" % p.rsplit("::", 1)[-1], b.where(ct["line"]))
+            else:
+                chk.fail("R26.5", p, "closed-without-reset", "the circuit is closed without resetting failure_count: the failures that opened it still count, so a single failure "
+                         "after recovery opens the circuit again", b, ct["line"])
+    chk.floor("R26.5", n5, 1)
     return {}
 
 
